@@ -76,7 +76,7 @@ macro_rules! c07_range_row {
             const PRECS: &[u32] = &precs!($plist);
             ctx.label(concat!("cfg:", $label));
             note!(ctx, "cfg {} (range coder)", $label);
-            let via = src.below(3);
+            let via = src.below(4);
             // the seek script is drawn first, in units of 1/256 of the message length
             let nsteps = src.range_usize(1, 12);
             let raw: Vec<(u64, u64, u64)> = (0..nsteps).map(|_| (src.below(10), src.below(256), src.below(24))).collect();
@@ -140,10 +140,20 @@ macro_rules! c07_range_row {
                     let mut d = RangeDecoder::<$W, $S, _>::from_compressed(&words[..]).unwrap_infallible();
                     range_script!(d, script, snaps, msg, nwords, $plist, "borrowed slice", ctx);
                 }
-                _ => {
+                2 => {
                     ctx.label("dec:temporary");
                     let mut d = e2.decoder();
                     range_script!(d, script, snaps, msg, nwords, $plist, "encoder.decoder()", ctx);
+                }
+                _ => {
+                    // the reversed words behind `Reverse<Cursor>`: queue reads walk the buffer downwards, positions are
+                    // passed through unconverted, i.e. mirrored (len - pos)
+                    ctx.label("dec:reversed_cursor");
+                    let rev: Vec<$W> = words.iter().rev().cloned().collect();
+                    let backend = constriction::backends::Reverse(constriction::backends::Cursor::new_at_write_end(rev));
+                    let mut d = RangeDecoder::<$W, $S, _>::with_backend(backend).unwrap_infallible();
+                    let mirrored: Vec<_> = snaps.iter().map(|s| (nwords - s.0, s.1.clone())).collect();
+                    range_script!(d, script, mirrored, msg, nwords, $plist, "Reverse<Cursor> over the reversed words", ctx);
                 }
             }
             Ok(())
